@@ -95,6 +95,9 @@ type replayer struct {
 	settle time.Duration
 	trail  []string
 	nstart int
+
+	pmu     sync.Mutex
+	pending []pendingViolation
 }
 
 func (rp *replayer) rid(i int) uint16 { return rp.base + uint16(i) }
@@ -107,9 +110,20 @@ func (rp *replayer) replayObj(extra map[string]any) map[string]any {
 	return o
 }
 
+// violate buffers what a behaviour's predicates found: the replay forces its schedule through real sockets and
+// deadlines, so a finding is judged only when the same behaviour shows it again on a fresh environment (see the
+// behaviour loop).
 func (rp *replayer) violate(key, what string, extra any) {
-	report(rp.res, key, what+" [behaviour "+rp.b.ID+", after "+strings.Join(tail(rp.trail, 6), " ; ")+"]",
-		rp.replayObj(map[string]any{"detail": extra}))
+	full := what + " [behaviour " + rp.b.ID + ", after " + strings.Join(tail(rp.trail, 6), " ; ") + "]"
+	obj := rp.replayObj(map[string]any{"detail": extra})
+	rp.pmu.Lock()
+	rp.pending = append(rp.pending, pendingViolation{key: key, what: full, fn: func() { report(rp.res, key, full, obj) }})
+	rp.pmu.Unlock()
+}
+
+type pendingViolation struct {
+	key, what string
+	fn        func()
 }
 
 func tail(s []string, n int) []string {
@@ -560,26 +574,62 @@ func runReplay(res *vh.Result, in *replayInput) {
 					envs++
 					envMu.Unlock()
 				}
-				rp := &replayer{res: res, b: b, e: e, bind: map[int]*rconn{}, settle: settle,
-					base: uint16(1000 + (int(vh.Seed())*7919+len(b.ID)*131+w*17)%50000)}
-				for p := 0; p < b.Procs; p++ {
-					rp.procs = append(rp.procs, &rproc{})
-				}
-				e.viol = rp.violate
-				ok := rp.run()
-				quiet := rp.finish(ok)
-				if ok {
-					res.Case("pool:" + strings.Join(rp.trail, ";"))
-					res.Count("behaviours_completed", 1)
-				} else {
-					res.Count("behaviours_abandoned", 1)
-				}
-				res.Count("behaviours", 1)
-				if quiet {
-					e.reset()
-				} else {
-					e.close() // an exchange is still out: never reuse its resolver
-					e = nil
+				var first []pendingViolation
+				for attempt := 0; attempt < 2; attempt++ {
+					if e == nil {
+						var err error
+						if e, err = newEnv(b.Class, b.PoolMax); err != nil {
+							res.Skip("%s: environment: %v", b.ID, err)
+							e = nil
+							break
+						}
+						sig = bsig
+					}
+					rp := &replayer{res: res, b: b, e: e, bind: map[int]*rconn{}, settle: settle,
+						base: uint16(1000 + (int(vh.Seed())*7919+len(b.ID)*131+w*17+attempt*4099)%50000)}
+					for p := 0; p < b.Procs; p++ {
+						rp.procs = append(rp.procs, &rproc{})
+					}
+					e.viol = rp.violate
+					ok := rp.run()
+					quiet := rp.finish(ok)
+					rp.pmu.Lock()
+					found := rp.pending
+					rp.pending = nil
+					rp.pmu.Unlock()
+					if attempt == 0 {
+						if ok {
+							res.Case("pool:" + strings.Join(rp.trail, ";"))
+							res.Count("behaviours_completed", 1)
+						} else {
+							res.Count("behaviours_abandoned", 1)
+						}
+						res.Count("behaviours", 1)
+					}
+					if quiet && len(found) == 0 {
+						e.reset()
+					} else {
+						e.close() // an exchange is still out, or something was flagged: never reuse this resolver
+						e = nil
+					}
+					if attempt == 0 && len(found) > 0 {
+						// judged only when the same behaviour shows it again on a fresh environment
+						first = found
+						res.Count("behaviours_flagged_rerun", 1)
+						continue
+					}
+					if attempt == 1 {
+						if len(found) > 0 {
+							for _, f := range found {
+								f.fn()
+							}
+						} else {
+							res.Count("behaviours_flagged_not_reproduced", 1)
+							res.DriftNote("behaviour %s: flagged once (%s: %s), not shown again by the same behaviour on a fresh environment - not judged",
+								b.ID, first[0].key, first[0].what)
+						}
+					}
+					break
 				}
 			}
 			if e != nil {
